@@ -13,7 +13,7 @@ pub fn run(c: &Case, tmp: &std::path::Path) -> Vec<String> {
     let mut main = dir.join("c.jbk");
     let pkg = c.p("pkg");
     let extra = c.pu("extra") as usize;
-    let _st = match std_container(main.to_str().unwrap(), pkg, c.p("comp"), c.pu("n") as u32, extra as u32, c.pu("seed"), c.po("idgap").map(|s| s.parse().unwrap()).unwrap_or(0), c.po("cmax").map(|s| s.parse().unwrap()).unwrap_or(0), c.po("orphans").map(|s| s.parse().unwrap()).unwrap_or(0)) {
+    let _st = match std_container(main.to_str().unwrap(), pkg, c.p("comp"), c.pu("n") as u32, extra as u32, c.pu("seed"), c.po("idgap").map(|s| s.parse().unwrap()).unwrap_or(0), c.po("cmax").map(|s| s.parse().unwrap()).unwrap_or(0), c.po("orphans").map(|s| s.parse().unwrap()).unwrap_or(0), c.po("vs") == Some("indexed")) {
         Ok(s) => s,
         Err(e) => {
             out.push(format!("{} create CREATE_FAIL {}", id, e.replace(' ', "_")));
